@@ -122,6 +122,10 @@ func (w *World) ApplyAPI(call string) error {
 		if err := w.Mgr.AddPcapProcessorWebhook(arg); err != nil {
 			res = "error: " + err.Error()
 		}
+	case "webhook.del":
+		if err := w.Mgr.DelPcapProcessorWebhook(arg); err != nil {
+			res = "error: " + err.Error()
+		}
 	case "endpoint":
 		if err := w.Mgr.AddPcapOverIPEndpoint(arg); err != nil {
 			res = "error: " + err.Error()
